@@ -293,6 +293,54 @@ func c14Scenario(c *fw.Ctx, s int) {
 			}
 		}
 	}
+	// a destination that is slow, not failing: its log takes 2.4 s to accept the message. Every destination
+	// is still served and the publisher acknowledged once the slow one is done
+	if nNodes == 3 && s%4 == 0 {
+		for i := 0; i < nNodes; i++ {
+			cl.SetUnreachable(uint64(i+1), false)
+			cl.LoseReplies(uint64(i+1), 0)
+			nodes[i].Log.SetFail(nil)
+		}
+		pn := pubNode[0]
+		for _, topic := range c14Topics {
+			m := &sentMsg{topic: topic, pub: 0, unreach: map[int]bool{}, dests: map[int]bool{}, replyLost: -1, remoteFail: -1, expectAck: true, qos: 1}
+			for _, su := range subs {
+				for _, f := range su.filters {
+					if model.Match(f, topic) {
+						m.dests[su.node] = true
+					}
+				}
+			}
+			remote := []int{}
+			for d := range m.dests {
+				if d != pn {
+					remote = append(remote, d)
+				}
+			}
+			if len(remote) < 2 {
+				continue
+			}
+			sort.Ints(remote)
+			for _, slow := range remote {
+				seqNo++
+				mm := *m
+				mm.tag = fmt.Sprintf("c14-%d-slow%d", s, seqNo)
+				mm.id = pubs[0].NextID()
+				nodes[slow].Log.CloseGate()
+				from := pubs[0].NumEvents()
+				pubs[0].Send(kit.EncPublish(topic, []byte(mm.tag), 1, false, false, mm.id))
+				time.Sleep(2400 * time.Millisecond)
+				nodes[slow].Log.OpenGate()
+				if _, _, err := pubs[0].WaitFor(from, kit.DefaultWait, func(e kit.Event) bool { return e.Pkt.Type == kit.PUBACK && e.Pkt.ID == mm.id }); err != nil {
+					c.Violation("ack-withheld:slow-destination", fmt.Sprintf("scenario %d: publish on %q from n%d while n%d's log took 2.4 s to accept it (nothing failed) was not acknowledged: %v", s, topic, pn+1, slow+1, err), wit(&mm, map[string]interface{}{"slow_node": slow + 1}))
+					return
+				}
+				sent = append(sent, &mm)
+				c.Observe("publishes_with_slow_destination", 1)
+			}
+			break
+		}
+	}
 	// barrier: everything reachable again, sentinel to all
 	for i := 0; i < nNodes; i++ {
 		cl.SetUnreachable(uint64(i+1), false)
@@ -505,7 +553,7 @@ func keys1(m map[int]bool) []int {
 
 func runC14(c *fw.Ctx) {
 	c.Level = "fault_enumeration"
-	c.Rule = "seeded placements of 1-2 publishers and 1-4 subscribers (1-2 filters each) over 2-3 broker nodes connected by real gRPC (bufconn) with manual gossip; for every topic of the list, every publisher and EVERY subset of the other nodes made unreachable at the RPC boundary, one tagged publish (QoS 1 and QoS 2 alternating, full handshake). Observed: Append calls per node and tag (recording log), RPC calls, PUBACKs, packets at every subscriber after a sentinel barrier. Oracle: appends(tag,node) = 1 iff the node hosts a matching subscription and is reachable (or is the publisher's node), else 0; one delivery per matching filter from the subscriber's own node; acknowledgement withheld iff an unreachable node is a destination; in a quarter of the cases the reply of one reachable destination is lost once after the node appended (still exactly one append and one delivery; the acknowledgement is not judged); epilogue: a subscriber unsubscribes between publishes on one topic and must not receive the later ones. distinct = (placement, topic, publisher, unreachable subset); non-trivial = the publish has >=1 destination node"
+	c.Rule = "seeded placements of 1-2 publishers and 1-4 subscribers (1-2 filters each) over 2-3 broker nodes connected by real gRPC (bufconn) with manual gossip; for every topic of the list, every publisher and EVERY subset of the other nodes made unreachable at the RPC boundary, one tagged publish (QoS 1 and QoS 2 alternating, full handshake). Observed: Append calls per node and tag (recording log), RPC calls, PUBACKs, packets at every subscriber after a sentinel barrier. Oracle: appends(tag,node) = 1 iff the node hosts a matching subscription and is reachable (or is the publisher's node), else 0; one delivery per matching filter from the subscriber's own node; acknowledgement withheld iff an unreachable node is a destination; in a quarter of the cases the reply of one reachable destination is lost once after the node appended (still exactly one append and one delivery; the acknowledgement is not judged); in a quarter of the 3-node placements one destination's log takes 2.4 s to accept a message (nothing fails: every destination is served, the publisher acknowledged); unreachable peers also appear as a connection behind which nobody listens; epilogue: a subscriber unsubscribes between publishes on one topic and must not receive the later ones. distinct = (placement, topic, publisher, unreachable subset); non-trivial = the publish has >=1 destination node"
 	c.Assume("subscriptions are gossiped to every node before publishing (gossip barrier), so 'known to the publishing node' = all")
 	c.Assume("a wrongly sent acknowledgement is looked for until the end of the scenario (sentinel barrier + 100 ms)")
 	n := c.Pick(40, 400)
